@@ -23,6 +23,8 @@ def two_specs():
     # C has the layout of A (equal grids, equal tables) and other constants; only B defines the constant "bonus"
     out = {"A": mk(0.0, 2, 2.5), "B": mk(100.0, 3, 7.5), "C": mk(0.0, 3, 4.0)}
     out["B"].float_constants["bonus"] = 9.5
+    # D and E differ in one constant only, and their hashes are EQUAL (hash(-1.0) == hash(-2.0)): two specs, not one
+    out["D"], out["E"] = mk(0.0, 2, -1.0), mk(0.0, 2, -2.0)
     return out
 
 
@@ -100,6 +102,8 @@ KERNELS = {
     "K8": "def K8():\n    get = lib_getter()\n    z = get()\n    gate.local_rz(0.5, z)\n    return 8\n",
     # a lookup only spec B can answer: under A and C it fails, whatever was compiled before
     "K9": "def K9():\n    lib_gate()\n    gate.global_rz(spec.get_float_constant(constant_id=\"bonus\"))\n    return 9\n",
+    # a FLOAT constant asked for under a name the specs only know as an INT constant: refused on every route, and asking leaves the spec alone
+    "K10": "def K10():\n    lib_gate()\n    gate.global_rz(spec.get_float_constant(constant_id=\"rows\"))\n    return 10\n",
     "K3": "def K3():\n    from_way = spec.get_static_trap(zone_id=\"traps\")\n    move_by_waypoints(ilist.IList([from_way[0:2, 0:2], from_way[1:3, 0:2]]), True, True)\n    return lib_rows(2)\n",
 }
 KARGS = {"K6": (1.5,)}
@@ -195,7 +199,7 @@ def expected_logs(specs):
     return out
 
 
-NATIVE_KERNELS = ["K1", "K2", "K4", "K5", "K6", "K7", "K8", "K9"]       # K3 uses a library kernel
+NATIVE_KERNELS = ["K1", "K2", "K4", "K5", "K6", "K7", "K8", "K9", "K10"]       # K3 uses a library kernel
 
 
 def source_reference(ctx, specs, expect):
@@ -320,16 +324,28 @@ def first_histories(ctx, specs):
     ctx.count("observations in histories run before the check interprets any shared subroutine itself", n)
 
 
+def specs_untouched(ctx, specs, pristine, when):
+    for sk, S in specs.items():
+        snap, hsh = pristine[sk]
+        if not (S == snap) or hash(S) != hsh or S.layout.static_traps.keys() != snap.layout.static_traps.keys() or S.float_constants != snap.float_constants \
+                or S.int_constants != snap.int_constants or S.layout.special_grid.keys() != snap.layout.special_grid.keys():
+            ctx.fail({"kind": "spec-modified", "spec": sk, "when": when}, {"history": [], "when": when}, f"{when}: spec {sk} is no longer what it was when this check started")
+            pristine[sk] = (copy.deepcopy(S), hash(S))
+
+
 def run(ctx):
     specs = two_specs()
+    pristine = {k: (copy.deepcopy(v), hash(v)) for k, v in specs.items()}
     first_histories(ctx, specs)
+    specs_untouched(ctx, specs, pristine, "after the first histories")
     expect = expected_logs(specs)
     base = World(specs).shared_behaviour()
     for (k, sk), v in expect.items():
-        if v[0] != "ok" and not (k == "K9" and sk != "B"):
+        if v[0] != "ok" and not (k == "K9" and sk != "B") and k != "K10":
             ctx.obligation(f"reference run of {k} under spec {sk} succeeds", False, str(v)[:200])
     if len({expect[("K1", "A")], expect[("K1", "B")]}) != 2:
         ctx.obligation("the two specs are distinguishable by the kernels", False)
+    specs_untouched(ctx, specs, pristine, "after every kernel was run unspecialised under each spec")
     source_reference(ctx, specs, expect)
     ctx.rule = ("histories over 3 kernels sharing 4 generated subroutines (spec lookups of all kinds, loops, a device call) and the library's "
                 "move_by_waypoints, 2 specs with the same zone names but different geometry/constants: every order of compiling 2-3 kernels with "
@@ -365,11 +381,14 @@ def run(ctx):
               [("compile", "K5", "A"), ("run", "K5"), ("compile", "K5", "B"), ("run", "K5")],
               [("compile", "K5", "B"), ("compile", "K1", "A"), ("run", "K5"), ("compile", "K5", "A"), ("run", "K5")],
               [("compile", "K1", "A"), ("compile", "K5", "C"), ("run", "K5"), ("compile", "K5", "B"), ("run", "K5")],
+              # two specs with equal hashes, in both orders, alone and around a third spec
+              [("compile", "K1", "D"), ("run", "K1"), ("compile", "K1", "E"), ("run", "K1")],
+              [("compile", "K2", "E"), ("compile", "K2", "D"), ("run", "K2"), ("compile", "K7", "E"), ("compile", "K1", "A"), ("compile", "K4", "D")],
               # a constant only B defines, asked for by a kernel compiled with A / C after B has been used
               [("compile", "K1", "B"), ("compile", "K9", "A"), ("run", "K9")],
               [("compile", "K9", "B"), ("run", "K9"), ("compile", "K9", "C"), ("compile", "K2", "A")]]
     if ctx.quick:
-        hists = ctx.rng.sample(hists, 22) + hists[-11:]
+        hists = ctx.rng.sample(hists, 22) + hists[-13:]
     elif len(hists) > 700:
         # six kernels: every history of two compilations, and a sample of the histories of three
         two = [h for h in hists if sum(1 for x in h if x[0] == "compile") == 2]
@@ -379,6 +398,7 @@ def run(ctx):
         ctx.exhaustive = True
     for h in hists:
         run_history(ctx, h, specs, expect, base)
+    specs_untouched(ctx, specs, pristine, "after all histories")
     ctx.sample({"history": [list(x) for x in hists[1]]})
     store_model(ctx, hists)
     ctx.explanation = ("Theorems about a store model (methods with opaque bodies, spec tags and call edges; compilation rewrites the root in place and "
@@ -393,12 +413,12 @@ def store_model(ctx, hists):
     """replay the compile steps on Model.Store and let Coq predict which observations may change"""
     # method ids: 0 lib_gate, 1 lib_rows, 2 lib_park, 3 move_by_waypoints, 4 K1, 5 K2, 6 K3, 7 lib_layer, 8 K4, 9 lib_dyn, 10 K5 ; calls as in the sources
     calls = {0: [], 1: [0], 2: [1], 3: [], 4: [0, 1], 5: [2, 0], 6: [3, 1], 7: [0, 1], 8: [7], 9: [], 10: [0, 9], 11: [], 12: [0, 11], 13: [0], 14: [13],
-             15: [], 16: [15], 17: [0]}         # 15 lib_getter, 16 K8, 17 K9
-    kid = {"K1": 4, "K2": 5, "K3": 6, "K4": 8, "K5": 10, "K6": 12, "K7": 14, "K8": 16, "K9": 17}
-    init = clist([f"(mkmeth {cnat(i)} None {clist([cnat(c) for c in calls[i]])})" for i in range(18)])
+             15: [], 16: [15], 17: [0], 18: [0]}         # 15 lib_getter, 16 K8, 17 K9, 18 K10
+    kid = {"K1": 4, "K2": 5, "K3": 6, "K4": 8, "K5": 10, "K6": 12, "K7": 14, "K8": 16, "K9": 17, "K10": 18}
+    init = clist([f"(mkmeth {cnat(i)} None {clist([cnat(c) for c in calls[i]])})" for i in range(19)])
     rows = []
     for h in hists[:40]:
-        steps = clist([f"({cnat(kid[x[1]])}, {cnat({'A': 1, 'B': 2, 'C': 3}[x[2]])})" for x in h if x[0] == "compile"])
+        steps = clist([f"({cnat(kid[x[1]])}, {cnat({'A': 1, 'B': 2, 'C': 3, 'D': 4, 'E': 5}[x[2]])})" for x in h if x[0] == "compile"])
         rows.append(steps)
     body = COQ_IMPORT + f"Definition st0 : store := {init}.\n"
     body += ("Definition row (steps : list (nat * nat)) : string :=\n"
